@@ -6924,6 +6924,8 @@ ZSTD_compressSequences_internal(ZSTD_CCtx* cctx,
             cBlockSize = ZSTD_noCompressBlock(op, dstCapacity, ip, blockSize, lastBlock);
             FORWARD_IF_ERROR(cBlockSize, "Nocompress block failed");
             DEBUGLOG(5, "Block too small, writing out nocompress block: cSize: %zu", cBlockSize);
+            if (cctx->blockState.prevCBlock->entropy.fse.offcode_repeatMode == FSE_repeat_valid)
+                cctx->blockState.prevCBlock->entropy.fse.offcode_repeatMode = FSE_repeat_check;
             cSize += cBlockSize;
             ip += blockSize;
             op += cBlockSize;
@@ -6966,8 +6968,6 @@ ZSTD_compressSequences_internal(ZSTD_CCtx* cctx,
             U32 cBlockHeader;
             /* Error checking and repcodes update */
             ZSTD_blockState_confirmRepcodesAndEntropyTables(&cctx->blockState);
-            if (cctx->blockState.prevCBlock->entropy.fse.offcode_repeatMode == FSE_repeat_valid)
-                cctx->blockState.prevCBlock->entropy.fse.offcode_repeatMode = FSE_repeat_check;
 
             /* Write block header into beginning of block*/
             cBlockHeader = lastBlock + (((U32)bt_compressed)<<1) + (U32)(compressedSeqsSize << 3);
@@ -6975,6 +6975,10 @@ ZSTD_compressSequences_internal(ZSTD_CCtx* cctx,
             cBlockSize = ZSTD_blockHeaderSize + compressedSeqsSize;
             DEBUGLOG(5, "Writing out compressed block, size: %zu", cBlockSize);
         }
+        /* The offset codes of a dictionary are only guaranteed to cover the first block,
+         * whatever the type it was emitted with (same rule as in ZSTD_compressBlock_internal()). */
+        if (cctx->blockState.prevCBlock->entropy.fse.offcode_repeatMode == FSE_repeat_valid)
+            cctx->blockState.prevCBlock->entropy.fse.offcode_repeatMode = FSE_repeat_check;
 
         cSize += cBlockSize;
 
